@@ -49,6 +49,7 @@ class Prog:
         return "\n".join(out) + "\n"
 
 
+LDREGS = ["l0", "l1"]
 LOOPREGS = [f"s{x}{d}" for d in (0, 1) for x in "abcnsdeq"]
 
 
@@ -301,7 +302,7 @@ class FuncGen:
 
     def gen_fp(self):
         r = self.r
-        k = r.below(9)
+        k = r.below(11)
         d = self.dreg()
         if k <= 2:
             self.emit(r.choice(["dadd", "dsub", "dmul", "ddiv"]), d, self.dreg(), self.dreg()); self.stat("dop")
@@ -328,6 +329,27 @@ class FuncGen:
             self.emit("d2f", f, self.dreg())
             self.emit(r.choice(["fadd", "fsub", "fmul"]), f, f, r.choice(self.flts))
             self.emit("f2d", d, f); self.stat("fop")
+        elif k >= 9:   # long double (x87 paths of the generator)
+            l, l2 = r.choice(LDREGS), r.choice(LDREGS)
+            kk = r.below(6)
+            if kk == 0:
+                self.emit("d2ld", l, self.dreg())
+            elif kk == 1:
+                self.emit(r.choice(["ldadd", "ldsub", "ldmul"]), l, l, l2)
+            elif kk == 2:
+                self.emit("and", "t0", self.ireg(), 0xffffff)
+                self.emit("i2ld", l, "t0")
+                self.emit("ldadd", l, l, l2)
+            elif kk == 3:
+                self.emit("ld" + r.choice(["eq", "ne", "lt", "le", "gt", "ge"]), self.ireg(), l, l2)
+            elif kk == 4 and self.o["mem"]:
+                off = r.below(27) * 16
+                self.emit("ldmov", ("mem", "ld", off, "buf", None, 1), l)
+                self.emit("ldmov", l2, ("mem", "ld", off, "buf", None, 1))
+            else:
+                self.emit("ldneg", l, l2)
+            self.emit("ld2d", d, l)
+            self.stat("ldop")
         else:
             self.emit("dneg", d, self.dreg()); self.stat("dop")
 
@@ -499,6 +521,8 @@ class FuncGen:
             self.emit("dmov", reg, r.choice(dsrcs) if r.chance(2, 3) else ("d", r.choice([0.0, 1.0, -1.5, 3.25, 1e10, -0.0])))
         for reg in self.flts:
             self.emit("fmov", reg, ("f", r.choice([0.0, 1.0, -2.5, 0.125])))
+        for reg in LDREGS:
+            self.emit("d2ld", reg, r.choice(dsrcs))
         for reg in ["acc", "t0", "t1", "tx", "tb", "tj"] + LOOPREGS:
             self.emit("mov", reg, 0)
         self.emit("mov", "fuel", o["fuel"])
@@ -525,7 +549,11 @@ class FuncGen:
             elif k == 3:
                 self.emit(r.choice(["bt", "bf", "bts", "bfs"]), tgt(), self.ireg()); self.stat("br_bt")
             elif k == 4 and o["fp"]:
-                self.emit("db" + r.choice(["eq", "ne", "lt", "le", "gt", "ge"]), tgt(), self.dreg(), self.dreg()); self.stat("br_fp")
+                if r.chance(1, 4):
+                    self.emit("ldb" + r.choice(["eq", "ne", "lt", "le", "gt", "ge"]), tgt(), r.choice(LDREGS), r.choice(LDREGS))
+                else:
+                    self.emit("db" + r.choice(["eq", "ne", "lt", "le", "gt", "ge"]), tgt(), self.dreg(), self.dreg())
+                self.stat("br_fp")
             elif k == 5 and o["switch"]:
                 n = 2 + r.below(3)
                 m = 1 if n == 2 else 3
@@ -556,6 +584,13 @@ class FuncGen:
                 else:
                     self.emit("dle", "t0", reg, ("d", 0.5))
                     self.emit("add", "acc", "acc", "t0")
+        if o["fp"]:
+            for reg in LDREGS:
+                self.emit("ld2d", "dt", reg)
+                self.emit("dle", "t0", "dt", ("d", 0.5))
+                self.emit("add", "acc", "acc", "t0")
+                self.emit("ldlt", "t0", reg, LDREGS[0])
+                self.emit("add", "acc", "acc", "t0")
         if o["alloca"]:
             for k in range(0, 64, 8):
                 self.emit("xor", "acc", "acc", ("mem", "i64", k, "tal", None, 1))
@@ -565,7 +600,7 @@ class FuncGen:
         else:
             header = "i64, i64:a0, i64:a1, d:x0"
             locs = [f"i64:{x}" for x in self.ints + ["acc", "t0", "t1", "tx", "tb", "tj", "fuel", "tal", "buf"] + LOOPREGS]
-        locs += [f"d:{x}" for x in self.dbls + ["dt"]] + [f"f:{x}" for x in self.flts]
+        locs += [f"d:{x}" for x in self.dbls + ["dt"]] + [f"f:{x}" for x in self.flts] + [f"ld:{x}" for x in LDREGS]
         self.emit("ret", "acc")
         self.prog.funcs.append((self.fname, header, locs, self.ins))
 
